@@ -423,7 +423,7 @@ def make_jobs(tier, seed, build):
             for n in (1, 2):
                 for full in (True, False):
                     jobs.append({"id": "html:%s:prefix%r:%d:%d" % (tname, prefix, n, int(full)), "kind": "html", "template": tname, "lens": [n], "full": full, "prefix": [0, prefix]})
-    for gname in ("c1", "c2", "c3", "c4", "h2", "g1"):
+    for gname in ("c1", "c2", "c3", "c4", "h2", "g1", "c7", "c8", "c9"):
         jobs.append({"id": "sections:%s" % gname, "kind": "sections", "grammar": gname})
     return jobs
 
